@@ -124,6 +124,15 @@ def arg_strategy():
             ]
         ),
     )
+    # child elements: block ones, ones that have a conventional position inside their parent, any catalogue element
+    FIRSTISH = ["title", "desc", "caption", "legend", "summary", "figcaption", "thead", "head", "source", "col"]
+    tagchild = st.builds(
+        lambda n, ws, txt: {"k": "tag", "name": n, "ws": ws, "attrs": [], "kids": [{"k": "text", "s": txt}] if txt else []},
+        st.one_of(st.sampled_from(["div", "p", "ul", "section"]), st.sampled_from(FIRSTISH), st.sampled_from(FIRSTISH), st.sampled_from(gen.catalogue_names())),
+        st.booleans(),
+        st.sampled_from(["", "T", "x y"]),
+    )
+    child = st.one_of(child, child, tagchild)
     common = st.sampled_from(
         [["target", "_blank"], ["target", "_self"], ["rel", "noopener"], ["type", "text"], ["type", "submit"], ["name", "n"], ["value", ""], ["src", "s.png"], ["alt", ""], ["role", "button"],
          ["method", "post"], ["action", "/"], ["width", 10], ["height", "5"], ["loading", "lazy"], ["download", True], ["hidden", True], ["tabindex", -1], ["lang", "en"], ["dir", "rtl"], ["charset", "utf-8"],
@@ -174,7 +183,10 @@ def body_args(case, note):
         n += 1
     has_child = any(k == "c" for k, _ in case["args"])
     has_attr = bool(case["kw"]) or any(k == "d" and p for k, p in case["args"])
-    note(has_child and has_attr, "explicit-ws" if case["ws"] is not None else "default-ws", "functions:%d" % n)
+    tagkids = [p for k, p in case["args"] if k == "c" and p["k"] == "tag"]
+    note(has_child and has_attr, "explicit-ws" if case["ws"] is not None else "default-ws", "functions:%d" % n,
+         "block-element-child" if any(p["ws"] for p in tagkids) else "",
+         "title/desc/caption-child-not-first" if any(k == "c" and p["k"] == "tag" and p["name"] in ("title", "desc", "caption", "legend", "summary") and i > 0 and any(k2 == "c" for k2, _ in case["args"][:i]) for i, (k, p) in enumerate(case["args"])) else "")
 
 
 def selftest():
@@ -192,5 +204,5 @@ RULE = (
 
 CLAUSES = [
     Clause("catalogue", body_catalogue, source="enum", enum=enum_catalogue, shards_quick=2, shards_thorough=4, required=("mod:tags", "mod:svg", "mod:top", "inline", "block"), rule="every function"),
-    Clause("args", body_args, strategy=arg_strategy, quick=150, thorough=1500, shards_quick=4, required=("explicit-ws", "default-ws"), rule="see RULE"),
+    Clause("args", body_args, strategy=arg_strategy, quick=150, thorough=1500, shards_quick=4, required=("explicit-ws", "default-ws", "block-element-child", "title/desc/caption-child-not-first"), rule="see RULE"),
 ]
